@@ -696,9 +696,16 @@ def _composition(ix: Any) -> tuple[Any, Any, list[Any], list[Any]]:
     only hands on to a function that does the work (and, say, converts how that one reports failure) - that function.  Variables are named
     as the home names them; a helper that is handed them, sees them as a closure or hands them back knows them by alias."""
     entry = ix.func("model_property._process_properties")
-    reg = _with_record_methods(ix, region(ix, entry))
-    nested = [h for h in ix.all_functions if h.parent is not None and any(_encloses(g, h) for g in reg)]
-    return entry, _state_owner(entry, reg + nested), reg, nested
+    got = _COMPOSITION.get(entry.qual)
+    if got is None or got[0] is not entry.node:
+        reg = _with_record_methods(ix, region(ix, entry))
+        nested = [h for h in ix.all_functions if h.parent is not None and any(_encloses(g, h) for g in reg)]
+        _COMPOSITION[entry.qual] = got = (entry.node, (entry, _state_owner(entry, reg + nested), reg, nested))
+    e, home, reg, nested = got[1]
+    return e, home, list(reg), list(nested)
+
+
+_COMPOSITION: dict[str, tuple[Any, tuple[Any, Any, list[Any], list[Any]]]] = {}
 
 
 def _state_owner(entry: Any, funcs: list[Any]) -> Any:
